@@ -75,6 +75,7 @@ def run(ctx) -> None:
     r01_7(ctx)
     r01_8(ctx)
     r01_9(ctx)
+    r01_10(ctx)
     ctx.floor("merge_cells", 6)
     ctx.floor("yield_sites", 18)
     ctx.floor("source_loops", 4)
@@ -310,6 +311,13 @@ def r01_9(ctx) -> None:
                 ctx.count("immediate_pulls")
                 ctx.check(path is None, "R01.9", u, p, "the item just pulled is yielded before the source is pulled again "
                           "(or the tool ends)", node=p, witness=pretty_path(path))
+
+
+def r01_10(ctx) -> None:
+    from . import c05
+    from .common import Relabel
+    ctx.rule("R01.10", "islice equals itertools.islice (items yielded and items consumed) on a cube of slicings (R05.5, shared)")
+    c05.r05_5(Relabel(ctx, "R01.10"))
 
 
 def _eval_method(ctx, cls_short: str, mname: str, outcome: str, reverse: bool, a: str, b: str):
